@@ -17,6 +17,18 @@ use std::collections::HashSet;
 use std::fmt::Debug;
 use std::hash::Hash;
 
+fn fingerprint<S: Hash>(s: &S) -> u128 {
+    use std::hash::Hasher;
+    let mut h1 = std::collections::hash_map::DefaultHasher::new();
+    s.hash(&mut h1);
+    let a = h1.finish();
+    let mut h2 = std::collections::hash_map::DefaultHasher::new();
+    0x9e3779b97f4a7c15u64.hash(&mut h2);
+    s.hash(&mut h2);
+    a.hash(&mut h2);
+    ((a as u128) << 64) | h2.finish() as u128
+}
+
 pub struct Outcome<S, A> {
     pub unique_states: u64,
     pub transitions: u64,
@@ -55,6 +67,8 @@ where
     let mut sizes = vec![layers[0].len() as u64];
     let mut violations = Vec::new();
     let mut completed = 0usize;
+    let mut final_extra = 0u64;
+    let mut final_sample: Option<(usize, Vec<M::Action>, M::State)> = None;
     loop {
         let cur = layers.last().unwrap();
         // violations in this layer?
@@ -89,6 +103,100 @@ where
             completed = max_depth;
             break;
         }
+        if layers.len() == max_depth {
+            // Final layer: every successor is generated and judged, but not stored: nothing is expanded from it,
+            // so keeping the states (the bulk of the memory of a run) buys nothing.  Distinct states are counted
+            // through 128-bit fingerprints; a fingerprint collision could only make the *count* one too small,
+            // never skip a judgement, since `bad` is evaluated on every generated successor.
+            let depth = layers.len() - 1;
+            let chunk = 2048usize;
+            let mut fps: HashSet<u128> = HashSet::new();
+            let mut found: Vec<(usize, usize, M::Action, M::State, String)> = Vec::new();
+            let mut last_sample: Option<(usize, M::Action, M::State)> = None;
+            let mut start = 0usize;
+            while start < cur.len() {
+                let end = (start + chunk).min(cur.len());
+                let parts: Vec<(Vec<u128>, u64, Vec<(usize, usize, M::Action, M::State, String)>, Option<(usize, M::Action, M::State)>)> = cur[start..end]
+                    .par_iter()
+                    .enumerate()
+                    .map(|(off, n)| {
+                        let pi = start + off;
+                        let mut acts = Vec::new();
+                        m.actions(&n.state, &mut acts);
+                        let mut f = Vec::with_capacity(acts.len());
+                        let mut t = 0u64;
+                        let mut b = Vec::new();
+                        let mut last = None;
+                        for (ai, a) in acts.into_iter().enumerate() {
+                            if let Some(s) = m.next_state(&n.state, a.clone()) {
+                                t += 1;
+                                f.push(fingerprint(&s));
+                                if let Some(e) = bad(&s) {
+                                    b.push((pi, ai, a.clone(), s.clone(), e));
+                                }
+                                if pi + 1 == cur.len() {
+                                    last = Some((pi, a, s));
+                                }
+                            }
+                        }
+                        (f, t, b, last)
+                    })
+                    .collect();
+                for (f, t, b, last) in parts {
+                    transitions += t;
+                    for x in f {
+                        fps.insert(x);
+                    }
+                    found.extend(b);
+                    if last.is_some() {
+                        last_sample = last;
+                    }
+                }
+                start = end;
+            }
+            // states of the final layer that were already reached earlier are not new
+            let mut new_states = 0u64;
+            {
+                let earlier: HashSet<u128> = seen.iter().map(fingerprint).collect();
+                for x in &fps {
+                    if !earlier.contains(x) {
+                        new_states += 1;
+                    }
+                }
+            }
+            sizes.push(new_states);
+            final_extra = new_states;
+            found.sort_by_key(|x| (x.0, x.1));
+            let path_to = |pi: usize| -> (usize, Vec<M::Action>) {
+                let mut acts = Vec::new();
+                let mut idx = pi;
+                let mut init_index = 0usize;
+                for d in (0..=depth).rev() {
+                    let n = &layers[d][idx];
+                    if let Some(a) = &n.action {
+                        acts.push(a.clone());
+                    }
+                    if d == 0 {
+                        init_index = idx;
+                    }
+                    idx = n.parent;
+                }
+                acts.reverse();
+                (init_index, acts)
+            };
+            for (pi, _, a, s, msg) in found.into_iter().take(max_report) {
+                let (init_index, mut acts) = path_to(pi);
+                acts.push(a);
+                violations.push((init_index, acts, s, msg));
+            }
+            if let Some((pi, a, s)) = last_sample {
+                let (init_index, mut acts) = path_to(pi);
+                acts.push(a);
+                final_sample = Some((init_index, acts, s));
+            }
+            completed = if violations.is_empty() { max_depth } else { max_depth - 1 };
+            break;
+        }
         // expand
         let succ: Vec<Vec<(M::State, M::Action)>> = cur
             .par_iter()
@@ -119,7 +227,9 @@ where
         layers.push(next);
     }
     // a sample history: the last node of the deepest non-empty layer
-    let sample = {
+    let sample = if final_sample.is_some() {
+        final_sample
+    } else {
         let depth = layers.len() - 1;
         if layers[depth].is_empty() {
             None
@@ -144,7 +254,7 @@ where
     };
     Outcome {
         sample,
-        unique_states: seen.len() as u64,
+        unique_states: seen.len() as u64 + final_extra,
         transitions,
         layers: sizes,
         violations,
